@@ -45,7 +45,7 @@ def main():
         if time.time() - t0 > a.budget:
             skipped += 1
             continue
-        rec.set_ctx(cell=cell)
+        rec.set_ctx(cell=dict(cell, import_order=os.environ.get("GT_IMPORT_ORDER", "x64-first")))
         try:
             mod.run_cell(cell, rec, a.seed)
             done += 1
